@@ -56,7 +56,7 @@ InitCL      == 10                        \* LOCAL_ONE, the default profile's con
 ResultKinds == {"rows", "empty"}
 IsErr(f)    == f \notin (ResultKinds \cup {"unset"})
 
-VARIABLES pool,       \* host -> "healthy" | "missing" | "shutdown" | "busy" | "failing" | "noconn"
+VARIABLES pool,       \* host -> "healthy" | "missing" | "shutdown" | "busy" | "failing" | "unwritable" | "noconn"
           idem,       \* statement.is_idempotent
           target,     \* explicit host or 0
           started,
@@ -106,6 +106,7 @@ ErrClass(c) == CASE c = "missing"  -> "ConnectionException"        \* no pool en
                  [] c = "busy"     -> "NoConnectionsAvailable"     \* borrow_connection timed out
                  [] c = "noconn"   -> "NoConnectionsAvailable"     \* pool lost its connection, replacement pending
                  [] c = "failing"  -> "ConnectionShutdown"         \* send_msg raised on a closed connection
+                 [] c = "unwritable" -> "ConnectionBusy"           \* send_msg raised: socket not writable
 
 (* _set_final_result / _set_final_exception: cancel the timer, record the outcome, run callbacks.     *)
 (* INTENDED: once-only per epoch.                                                                      *)
@@ -133,7 +134,7 @@ FSend(s, h, viaPlan) ==
 FSkip(s, h) ==
     [s EXCEPT !.errs = [@ EXCEPT ![h] = ErrClass(s.pool[h])],
               !.pool = [@ EXCEPT ![h] = IF @ = "failing" THEN "noconn" ELSE @],
-              !.lastConn = IF s.pool[h] = "failing" THEN h ELSE @]
+              !.lastConn = IF s.pool[h] \in {"failing", "unwritable"} THEN h ELSE @]
 
 (* send_request: resume the plan iterator until one send succeeds; NoHostAvailable(errors) when it is  *)
 (* exhausted and error_no_hosts.                                                                       *)
@@ -354,7 +355,7 @@ Consumed == IF ~started THEN {}
 Inv_Skipped ==
     \A h \in Consumed :
         \/ \E i \in PlanSends(epoch) : sentLog[i].host = h
-        \/ errs[h] \in {"ConnectionException", "NoConnectionsAvailable", "ConnectionShutdown"} \cup ErrKinds
+        \/ errs[h] \in {"ConnectionException", "NoConnectionsAvailable", "ConnectionShutdown", "ConnectionBusy"} \cup ErrKinds
 Inv_Exhausted == final = "NoHostAvailable" => plan = <<>>
 (* at the moment NoHostAvailable is raised its errors map (= errs) has an entry for every host that was    *)
 (* skipped or whose attempt failed; a host whose attempt is still in flight cannot have one                *)
